@@ -1,15 +1,26 @@
 #!/bin/bash
 # Runs every seeded change under seeded/ against the check of its property (and
-# optional extra properties listed in seeded/<dir>/also) and writes seeded/RESULTS.txt.
+# optional extra properties listed in seeded/<dir>/also) and writes
+# seeded/RESULTS.txt.  Properties are processed in parallel (JOBS, default 5),
+# the seeds of one property one after the other.
 cd "$(dirname "$0")/.."
-: > seeded/RESULTS.txt
-for d in seeded/*/; do
-  d=${d%/}; n=$(basename $d); id=${n%%-*}
-  [ -f $d/patch.diff ] || continue
-  ids="$id"; [ -f $d/also ] && ids="$ids $(cat $d/also)"
-  for i in $ids; do
-    r=$(tools/tryseed.sh $i $d 2>&1 | tail -1 | sed "s|seed $d: ||")
-    echo "$n [$i]: $r" | tee -a seeded/RESULTS.txt
-    case "$r" in DETECTED*) break;; esac
+JOBS=${JOBS:-5}
+one() {
+  id=$1
+  : > seeded/.results.$id
+  for d in $(ls -d seeded/$id-*/ 2>/dev/null | sort -t- -k2n); do
+    d=${d%/}; n=$(basename $d)
+    [ -f $d/patch.diff ] || continue
+    ids="$id"; [ -f $d/also ] && ids="$ids $(cat $d/also)"
+    for i in $ids; do
+      r=$(tools/tryseed.sh $i $d 2>&1 | tail -1 | sed "s|seed .*$d: ||")
+      echo "$n [$i]: $r" >> seeded/.results.$id
+      case "$r" in DETECTED*) break;; esac
+    done
   done
-done
+}
+export -f one
+printf 'C%02d\n' $(seq 1 20) | xargs -P $JOBS -I{} bash -c 'one {}'
+: > seeded/RESULTS.txt
+for i in $(seq 1 20); do id=$(printf 'C%02d' $i); cat seeded/.results.$id >> seeded/RESULTS.txt; rm -f seeded/.results.$id; done
+grep -c DETECTED seeded/RESULTS.txt
